@@ -444,7 +444,8 @@ Hbitread(int32 bitid, int count, uint32 *data)
     /* Check for write access */
     /* change bitfile modes if necessary */
     if (bitfile_rec->mode == 'w')
-        HIwrite2read(bitfile_rec);
+        if (HIwrite2read(bitfile_rec) == FAIL) /* the bits written so far could not be flushed */
+            HRETURN_ERROR(DFE_WRITEERROR, FAIL);
 
     if (count > (int)DATANUM) /* truncate the count if it's too large */
         count = DATANUM;
